@@ -10,6 +10,7 @@ import RbV.Lemmas.PoaBound
 import RbV.Lemmas.PoaConsensus
 import RbV.Lemmas.PoaBandedFull
 import RbV.Lemmas.PoaModes
+import RbV.Lemmas.PoaGrowAll
 /-!
 # C16 — partial-order alignment: exact on linear graphs, graph stays a growing DAG
 
@@ -270,6 +271,19 @@ theorem model_history_all_modes_only_grows (x : List Nat) (steps more : List Poa
     Extends (Poa.Model.historyM x steps).labels (Poa.Model.historyM x steps).es
       (Poa.Model.historyM x (steps ++ more)).labels (Poa.Model.historyM x (steps ++ more)).es :=
   (Poa.Model.historyM_grows x steps more).extends
+
+/-- … **node growth ≤ |query| per addition in every mode** — for every graph (no acyclicity needed), scoring,
+clip penalties, mode and query: the traceback over the table of `custom`/`global_banded` emits at most `|q|`
+operations that consume a query symbol (such an operation moves one column to the left, column 0 holds
+none, a `Yclip` never jumps to the right), and `add_alignment` creates at most one node per such operation -/
+theorem model_every_mode_node_growth (sc : Sc) (cl : Poa.Model.Clips) (g : Poa.Model.G) (mode : Poa.Model.Mode)
+    (q : List Nat) :
+    (Poa.Model.stepAdd sc cl g mode q).labels.length ≤ g.labels.length + q.length :=
+  Poa.Model.stepAdd_node_growth sc cl g mode q
+
+theorem model_history_all_modes_node_count (x : List Nat) (steps : List Poa.Model.HStep) :
+    (Poa.Model.historyM x steps).labels.length ≤ x.length + (steps.map fun s => s.2.2.2.length).sum :=
+  Poa.Model.historyM_node_count x steps
 
 /-- … and its consensus is always a non-empty word spelled by a path -/
 theorem model_history_all_modes_consensus_is_path (x : List Nat) (hx : x ≠ []) (steps : List Poa.Model.HStep) :
